@@ -17,7 +17,7 @@ SPEC = {
     "theorems": ["C07_strictly_increasing", "C07_release_wastes_none", "C07_crash_wastes_le_interval",
                  "C07_next_returns_frontier", "C07_budget_step", "C07_store_error_harmless", "C07_skeleton_next", "C07_skeleton_release", "C07_skeleton_update",
                  # protocol level: concurrent callers on one object (Hive/Props/C07b.lean, model Hive/Model/SeqConc.lean)
-                 "C07_concurrent_mutual_exclusion", "C07_concurrent_refines_sequential", "C07_concurrent_strictly_increasing",
+                 "C07_concurrent_mutual_exclusion", "C07_concurrent_refines_sequential", "C07_concurrent_answers_are_sequential", "C07_concurrent_strictly_increasing",
                  "C07_concurrent_no_number_twice", "C07_concurrent_crash_wastes_le_interval", "C07_concurrent_crash_step",
                  "C07_concurrent_release_wastes_none", "C07_concurrent_contiguous", "C07_concurrent_skeleton"],
     "trusted_base": ["hand-written model Hive/Model/Seq.lean of kvstore/sequence.go, tied by differential execution (harness/c07)",
